@@ -246,17 +246,15 @@ def translate(repo: Path) -> str:
         f'(* GENERATED on every check by tools/translate/euler.py from {REL} - do not edit. *)',
         'From Coq Require Import List String.',
         'Import ListNotations.',
-        'Section EulerGen.',
-        '  Variable K : Type.',
-        '  Variables (k0 k1 : K) (kadd kmul ksub : K -> K -> K) (kopp : K -> K).',
-        '  (* the nine entries of the jnp.array literal of get_rotation_matrix; arguments are',
-        '     sin/cos of samplings.phi, samplings.theta, samplings.pa in this fixed order *)',
-        '  Definition euler_entries (s_phi c_phi s_theta c_theta s_pa c_pa : K) : list (list K) :=',
-        '    [' + ';\n     '.join('[' + '; '.join(r) + ']' for r in rows) + '].',
-        f'  (* jnp.einsum({text!r}, rot, detector_dirs.coords) by its index meaning *)',
-        '  Definition einsum_rotated (A B : nat -> nat -> nat -> K) ' + '(' + ' '.join(var(c) for c in out) + ' : nat) : K :=',
-        f'    kadd (kadd {term(0)} {term(1)}) {term(2)}.',
-        'End EulerGen.',
+        '(* the nine entries of the jnp.array literal of get_rotation_matrix; arguments are',
+        '   sin/cos of samplings.phi, samplings.theta, samplings.pa in this fixed order *)',
+        'Definition euler_entries (K : Type) (k0 k1 : K) (kadd kmul ksub : K -> K -> K) (kopp : K -> K)',
+        '    (s_phi c_phi s_theta c_theta s_pa c_pa : K) : list (list K) :=',
+        '  [' + ';\n   '.join('[' + '; '.join(r) + ']' for r in rows) + '].',
+        f'(* jnp.einsum({text!r}, rot, detector_dirs.coords) by its index meaning *)',
+        'Definition einsum_rotated (K : Type) (k0 k1 : K) (kadd kmul ksub : K -> K -> K) (kopp : K -> K)',
+        '    (A B : nat -> nat -> nat -> K) ' + '(' + ' '.join(var(c) for c in out) + ' : nat) : K :=',
+        f'  kadd (kadd {term(0)} {term(1)}) {term(2)}.',
         f'Definition einsum_subscripts : string := "{text}"%string.',
         'Definition angle_binding : list (string * string) := ['
         + '; '.join(f'("{k}"%string, "{v}"%string)' for k, v in binding.items())
